@@ -279,7 +279,7 @@ fn oracle(c: &SymCase, rec: &Rec, _: &Ctx) -> Result<(), String> {
             (p, cp, o, "lj")
         }
         Kind::LjCustom(atoms) => {
-            let shape = LJShape2 { name: "custom".to_string(), items: atoms.iter().map(|(x, y, s)| LJ2 { position: Point2::new(*x * c.unit, *y * c.unit), sigma: *s * c.unit, epsilon: 1., cutoff: Some(3.5 * c.unit) }).collect() };
+            let shape = statejson::lj_molecule("custom", atoms.iter().map(|(x, y, s)| statejson::lj2(*x * c.unit, *y * c.unit, *s * c.unit, 1., Some(3.5 * c.unit))).collect());
             let (p, cp, o) = go!(PotentialState::from_group(shape, &wg).map_err(|e| e.to_string())?, pts_lj, true);
             (p, cp, o, "lj-chiral")
         }
